@@ -58,10 +58,8 @@ def numVerdict (dec sci : Char) (s : Str) (impl : Option (List String)) : String
       let v1 := match pd with
         | none => if idbl == "exc:bpp" then "ok" else "FAIL:toDouble_raises"
         | some p =>
-          -- the stream reads '.' and e/E whatever `dec`/`sci` are: the value clause is about those
-          if nearestDouble idbl p.value then "ok"
-          else if dec == '.' && (sci == 'e' || sci == 'E') then "FAIL:toDouble_value"
-          else "FAIL:toDouble_value_custom_chars"
+          -- whatever usable `dec` / `sci` the caller chose (toDouble translates them for the stream)
+          if nearestDouble idbl p.value then "ok" else "FAIL:toDouble_value"
       if v1 != "ok" then v1
       else match pi with
         | none => if iintv == "exc:bpp" then "ok" else "FAIL:toInt_raises"
